@@ -16,7 +16,7 @@
    PARTIAL: quoted values with escapes, white space and folds around "=" and the separators, empty
    list items, the white-space-then-token terminator, and the converse direction (accepted => of
    that shape) are not proved: render/parse oracle + correspondence (chunked too). *)
-From Sipsp Require Import Harness Misc HdrSpec TokSpec UListSpec.
+From Sipsp Require Import Harness Misc HdrSpec TokSpec UListSpec UHListSpec TokEoi.
 Theorem C17_character_set : forall up c, tok_allowed up c = true <-> In c (allowed_set up).
 Proof. exact tok_allowed_spec. Qed.
 Theorem C17_bad_byte_in_name_rejected_there : forall f (rest : list byte) i s c,
@@ -79,5 +79,48 @@ Example C17_example :
   parse_tokparam 0 [116;97;103;61;120;55;59;108;114] 0 tokparam0
   = Done 7 EMoreValues (mktokparam (mkpf 0 6) (mkpf 0 3) (mkpf 4 2) PInitNxtVal).
 Proof. vm_compute. reflexivity. Qed.
+(* ---- the URI header list, and both lists ended by the end of the input -------------------------------------------------------------- *)
+Theorem C17_uri_header_list : forall flags0 ps (junk : list byte) t r n, ps <> [] -> Forall (h_ok flags0) ps ->
+  is_term_c (N.lor flags0 (N.lor (2 ^ bPOptParamAmpSep) (2 ^ bPOptTokURIHdr))) t = true ->
+  let i := nnat (length junk) in
+  let es := hl_entries i ps in
+  exists L, parse_all_uri_hdrs flags0 (junk ++ hl_bytes flags0 ps ++ t :: r) i (uhdrs_init (repeat tokparam0 n))
+            = Done (i + nnat (length (hl_bytes flags0 ps))) EOk L /\
+    uh_n L = nnat (length ps) /\ uh_vno L = nnat (length ps) /\
+    (forall j, (j < length ps)%nat -> (j < n)%nat -> nth j (uh_hdrs L) tokparam0 = nth j es tokparam0).
+Proof. exact uri_hdrs_list_spec. Qed.
+Theorem C17_param_ended_by_end_of_input : forall flags (junk : list byte) n0 (name : list byte) v0 (value : list byte),
+  plain flags n0 -> Forall (plain flags) name -> plain flags v0 -> Forall (plain flags) value -> tf_ie (tp_decode flags) = true ->
+  let k := nnat (length junk) in let ln := nnat (length (n0 :: name)) in let lv := nnat (length (v0 :: value)) in
+  parse_tokparam flags (junk ++ (n0 :: name) ++ 61 :: (v0 :: value)) k tokparam0
+  = Done (k + (ln + 1 + lv)) EEOH (mktokparam (mkpf k (ln + 1 + lv)) (mkpf k ln) (mkpf (k + (ln + 1)) lv) PFIN).
+Proof. exact tp_spec_eoi_at. Qed.
+Theorem C17_uri_parameter_list_to_end_of_input : forall flags0, tf_ie (tp_decode (N.lor flags0 (2 ^ bPOptParamSemiSep))) = true ->
+  forall ps (junk : list byte) n, ps <> [] -> Forall (p_ok flags0) ps ->
+  let i := nnat (length junk) in
+  let es := l_entries i ps in
+  exists L, parse_all_uri_params flags0 (junk ++ l_bytes flags0 ps) i (uparams_init (repeat uriparam0 n))
+            = Done (i + nnat (length (l_bytes flags0 ps))) EEOH L /\
+    ul_n L = nnat (length ps) /\ ul_vno L = nnat (length ps) /\
+    ul_types L = fold_left (fun a p => N.lor a (up_t p)) es 0 /\ length (ul_params L) = n /\
+    (forall j, (j < length ps)%nat -> (j < n)%nat -> nth j (ul_params L) uriparam0 = nth j es uriparam0).
+Proof. exact uri_params_list_spec_eoi. Qed.
+Theorem C17_uri_header_list_to_end_of_input : forall flags0, tf_ie (tp_decode (N.lor flags0 (N.lor (2 ^ bPOptParamAmpSep) (2 ^ bPOptTokURIHdr)))) = true ->
+  forall ps (junk : list byte) n, ps <> [] -> Forall (h_ok flags0) ps ->
+  let i := nnat (length junk) in
+  let es := hl_entries i ps in
+  exists L, parse_all_uri_hdrs flags0 (junk ++ hl_bytes flags0 ps) i (uhdrs_init (repeat tokparam0 n))
+            = Done (i + nnat (length (hl_bytes flags0 ps))) EEOH L /\
+    uh_n L = nnat (length ps) /\ uh_vno L = nnat (length ps) /\ length (uh_hdrs L) = n /\
+    (forall j, (j < length ps)%nat -> (j < n)%nat -> nth j (uh_hdrs L) tokparam0 = nth j es tokparam0).
+Proof. exact uri_hdrs_list_spec_eoi. Qed.
+(* satisfiable: "x=1&yy=2" as a URI header list to the end of the input *)
+Example C17_hdr_list_example :
+  let f := 2 ^ bPOptInputEnd in
+  Forall (h_ok f) [([120], [49]); ([121;121], [50])] /\ tf_ie (tp_decode (N.lor f (N.lor (2 ^ bPOptParamAmpSep) (2 ^ bPOptTokURIHdr)))) = true.
+Proof. cbv zeta. split; [|reflexivity]. repeat constructor; try discriminate; try reflexivity. Qed.
 Print Assumptions C17_param_then_next_param_at_any_offset.
+Print Assumptions C17_uri_header_list.
+Print Assumptions C17_uri_parameter_list_to_end_of_input.
+Print Assumptions C17_uri_header_list_to_end_of_input.
 Print Assumptions C17_uri_parameter_list.
